@@ -9,6 +9,7 @@ import (
 	"fmt"
 	"os"
 	"path/filepath"
+	"strings"
 )
 
 func init() { families["tree"] = runTree }
@@ -101,6 +102,15 @@ func oneTree(o *opts, r *rng, s *summary, i int, sc treeScenario, distinct map[s
 				art.set(n, nDir(Ent{"inner.txt", nFile(genContent(r, &pool))}))
 			}
 			art.sortEnts()
+		}
+		if r.chance(1, 4) {
+			// long names that agree on their first 210 bytes (a name cut to make room for a suffix
+			// would collide with its sibling)
+			long := strings.Repeat("L", 210)
+			art.set(long+"_first", nFile(genContent(r, &pool)))
+			art.set(long+"_second", nFile(genContent(r, &pool)))
+			art.sortEnts()
+			s.count("name:long-shared-prefix")
 		}
 		if sc.invalid {
 			if sc.kind == "norec" || (i%9 != 4 && r.chance(1, 2)) {
